@@ -57,3 +57,8 @@ C['C08'] = dict(
  text="For every input (complete enumeration of single tokens, token pairs x separator choices, illegal characters, all string contents up to length 4 and raw literal bodies up to length 3 over an escape alphabet; random sequences beyond) TLC runs the specification's lexer on the recorded characters and compares kind, spelling and end position of every token with the real lexer's, requires that a legal text is read to its end and that an illegal one is rejected (nothing silently dropped), and that every string literal in the parser's tree equals Decode of its raw spelling.",
  ref="DESIGN.md 5 C08",
  note="Trusted: TLC, the recorder (Unicode classes of non-ASCII code points from Rust's char predicates; Debug rendering of tokens).")
+C['C05'] = dict(
+ tech="TLA+ outcome alphabet (NlTotal) - the specification pipeline has no action producing a panic, signal, hang or contract fault - checked by TLC on every recorded outcome of an isolated worker and of the real binary; budget-limited runs decided by the reference semantics (TV_Sem rule 'diverges')",
+ text="A directed boundary corpus, token edits and truncations of generated programs, random token sequences and Unicode noise are evaluated in an isolated worker under wall-clock, memory and instruction limits (and a sample through the real binary in file mode and on the prompt's stdin); TLC validates every recorded outcome against the alphabet Value | Err(one of five kinds) | Budget, and a budget-limited run only if the reference semantics on the same tree is itself still running.",
+ ref="DESIGN.md 5 C05",
+ note="Trusted: TLC, the isolated worker (harness/src/pool.rs). Known findings KF-C05-LIMITS, KF-C05-NATIVE-STACK, KF-C05-CYCLE-DISPLAY are matched by panic site / signal and input class; any other crash, hang or undocumented error kind is a violation.")
